@@ -95,6 +95,9 @@ func WorkerMain(t *testing.T) {
 		if p.SchedSeed == 0 {
 			p.SchedSeed = simcore.Mix(*fSeed, *fProp, run, "sched")
 		}
+		if p.Reader == "" {
+			p.Reader = []string{"plain", "plain", "eof", "short"}[simcore.NewRand(simcore.Mix(*fSeed, *fProp, run, "reader")).Intn(4)]
+		}
 		st := time.Now()
 		o := ExecPlan(t, eng, p, work)
 		rec := Record{Run: run, Outcome: o, WallMS: float64(time.Since(st).Microseconds()) / 1000}
@@ -133,6 +136,7 @@ func ExecPlan(t *testing.T, eng Engine, p *Plan, work string) (o *Outcome) {
 	crand.Reader = &drbg{r: simcore.NewRand(simcore.Mix(p.Seed, p.Prop, p.Run, "crand"))}
 	env := sim.NewEnv()
 	env.Faults = append([]sim.Fault(nil), p.Faults...)
+	sim.SetReaderMode(p.Reader)
 	rc := &RunCtx{Scratch: scratch, Env: env}
 	guard := func(f func()) {
 		defer func() {
